@@ -9,6 +9,7 @@ package main
 import (
 	"encoding/json"
 	"fmt"
+	"reflect"
 	"strings"
 	"time"
 
@@ -143,9 +144,26 @@ func apply(sch schema.Type, k kase) (err error) {
 }
 
 func runCase(sch schema.Type, spec *ukit.Spec, k kase, i int, tier string, res *ux.Result) (errored bool) {
+	var err error
 	pan, val, stack := ukit.Call(func() {
-		errored = apply(sch, k) != nil
+		err = apply(sch, k)
+		errored = err != nil
 	})
+	if !pan && err != nil {
+		// "returns an error": an error value a caller can use. A non-nil error interface around a nil pointer, or one
+		// whose Error method panics, is the panic handed to the caller to trigger.
+		if rv := reflect.ValueOf(err); rv.Kind() == reflect.Ptr && rv.IsNil() {
+			res.Add(fmt.Sprintf("%s returns a non-nil error that holds a nil %T", k.Op, err),
+				fmt.Sprintf("%s(%s) on %s", k.Op, k.Desc, spec), replay{spec, i, k.Op + " " + k.Desc, tier})
+			return
+		}
+		pan, val, stack = ukit.Call(func() { _ = err.Error() })
+		if pan {
+			res.Add(fmt.Sprintf("the error returned by %s panics when asked for its text: %s", k.Op, lib.PanicClass(fmt.Sprint(val))),
+				fmt.Sprintf("%s(%s) on %s\npanic: %v\n%s", k.Op, k.Desc, spec, val, stack), replay{spec, i, k.Op + " " + k.Desc, tier})
+			return
+		}
+	}
 	if pan {
 		sig := fmt.Sprintf("panic in %s: %s", lib.PanicSite(stack), lib.PanicClass(fmt.Sprint(val)))
 		res.Add(sig, fmt.Sprintf("%s(%s) on %s\npanic: %v", k.Op, k.Desc, spec, val), replay{spec, i, k.Op + " " + k.Desc, tier})
